@@ -252,7 +252,7 @@ def h_asian_column(ctx, n, offset):
         lo, hi = V.smin(lo, x), V.smax(hi, x)
     ctx.prove("C17.average_between_path_extremes", AND(v >= lo, v <= hi), info=info, replay=rp)
     want = sum(vals[i] * (times[i] - (times[i - 1] if i else 0.0)) for i in range(n)) / times[n - 1]
-    ctx.prove("C17.average_is_the_time_weighted_mean_of_the_observations", EQ_RATIONAL(v, want), info=info, replay=rp)
+    ctx.prove("C17.attempted.average_is_the_time_weighted_mean_of_the_observations", EQ_RATIONAL(v, want), info=info, replay=rp)
 
 
 class _PairPath:
@@ -422,10 +422,14 @@ EXPECT = ["C17.call_minus_put_is_forward", "C17.call_spread_is_call_combination_
           "C17.default_time_is_first_jump_below_threshold", "C17.nth_to_default_times_nondecreasing_in_n"]
 
 
+# stronger than the property (which only asks for a value between the extremes): reported, not claimed
+ATTEMPTED = ["C17.attempted.average_is_the_time_weighted_mean_of_the_observations"]
+
+
 def main(tier):
     bounds = {"paths": "length <= 3 (quick) / 4 (thorough), <= 2 assets; strikes, barriers, thresholds, notionals, times arbitrary reals (times increasing)",
               "outside": "LookBack (raises by construction), Rainbow, CDS (C19), rate payoffs (Bond/Cap/Ratchet/Swaption), MaximumOfPerformances under LOG"}
-    return run_check(PID, tier, harnesses(tier), expect=EXPECT, bounds=bounds,
+    return run_check(PID, tier, harnesses(tier), expect=EXPECT, attempted=ATTEMPTED, bounds=bounds,
                      assumptions=COMMON_ASSUMPTIONS + ["exp/log as UFs with exp(log x) = x, log(exp x) = x, monotone"])
 
 
